@@ -17,7 +17,7 @@ from models import numref as R
 ID = "C04"
 LEVEL = "model_checking"
 RULE = (
-    "Exhaustive product: gridder configuration (14: Spline exact / damped / separate forces, Trend 1-2, VectorSpline2D exact / damped, "
+    "Exhaustive product: gridder configuration (15: Spline exact / damped / fewer separate forces / as many separate forces as data, Trend 1-2, VectorSpline2D exact / damped, "
     "KNeighbors k=1 / k=3 mean / k=2 median, Linear, Cubic, a Chain, a Vector) x point set in the k-subsets (k = 4..5; thorough 4..6) of the "
     "general-position integer set G9 x transformation family {every permutation of the points; every layout in {2-D C, 2-D Fortran, strided "
     "view, reversed-twice view, pandas Series with a non-default index, list}; 1..2 ignored extra coordinates; integer dtype (int64, int32) "
@@ -35,6 +35,7 @@ CONFIGS = [
     ["Spline", {}],
     ["Spline", {"damping": 1e-2}],
     ["Spline", {"force_sep": True, "damping": 1e-3}],
+    ["Spline", {"force_sep": "square", "damping": 1e-3}],
     ["Trend", {"degree": 1}],
     ["Trend", {"degree": 2}],
     ["VectorSpline2D", {"poisson": 0.5, "mindist_rel": 0.1}],
@@ -47,10 +48,11 @@ CONFIGS = [
     ["Chain", {"steps": [["Trend", {"degree": 1}], ["Spline", {"damping": 1e-2}]]}],
     ["Vector", {"components": [["Trend", {"degree": 1}], ["Spline", {}]]}],
 ]
-LINEAR = {0, 1, 2, 3, 4, 5, 6, 8, 10, 12, 13}  # configs that are linear in the data (KNeighbors with mean, Linear, ...)
+LINEAR = {0, 1, 2, 3, 4, 5, 6, 7, 9, 11, 13, 14}  # configs that are linear in the data (KNeighbors with mean, Linear, ...)
 QF = [(3.3, 4.7), (6.1, 6.9), (8.2, 5.3), (2.9, 7.6), (9.4, 8.1), (5.7, 9.2), (-1.3, 2.2), (13.1, 12.7), (6.6, 3.4)]
 QI = [(3, 5), (6, 7), (8, 5), (3, 8), (9, 8), (0, 0), (12, 9), (6, 8), (7, 4)]
 FSEP = [(2.0, 2.0), (9.0, 4.0), (4.0, 9.0)]
+FSQ = [(2.0, 2.0), (9.0, 4.0), (4.0, 9.0), (11.0, 11.0), (1.0, 5.0), (7.0, 1.0)]  # as many forces as data points (square, non-symmetric Jacobian)
 
 
 def bounds(tier, seed):
@@ -80,14 +82,16 @@ def _spec(ci):
     return spec
 
 
-def _build(spec, ext):
+def _build(spec, ext, npts=4):
     kw = dict(spec[1])
-    if kw.pop("force_sep", False):
+    fs = kw.pop("force_sep", False)
+    if fs:
         import verde as vd
         import warnings
+        F_ = FSEP if fs is True else FSQ[:npts]
         with warnings.catch_warnings():
             warnings.simplefilter("ignore")
-            return vd.Spline(damping=kw.get("damping"), force_coords=(np.array([p[0] for p in FSEP]), np.array([p[1] for p in FSEP])))
+            return vd.Spline(damping=kw.get("damping"), force_coords=(np.array([p[0] for p in F_]), np.array([p[1] for p in F_])))
     return build([spec[0], kw], ext)
 
 
@@ -108,7 +112,8 @@ def _bound(spec, e, n, qe, qn, dnorm, ext, perm):
         J, Jq = R.trend_design(e, n, kw["degree"]), R.trend_design(qe, qn, kw["degree"])
     elif name == "Spline":
         if kw.get("force_sep"):
-            fe = np.array([p[0] for p in FSEP]); fn = np.array([p[1] for p in FSEP])
+            F_ = FSEP if kw["force_sep"] is True else FSQ[:e.size]
+            fe = np.array([p[0] for p in F_]); fn = np.array([p[1] for p in F_])
         else:
             fe, fn = e, n
         md = kw.get("mindist_rel", 0.0) * ext
@@ -186,7 +191,7 @@ def run(case, rec):
     data = _data(nc, npts)
     dnorm = max(float(np.max(np.abs(d))) for d in data)
     qe = np.array([q[0] for q in QF]); qn = np.array([q[1] for q in QF])
-    factory = lambda: _build(spec, ext)
+    factory = lambda: _build(spec, ext, npts)
     fam = case["fam"]
     rec.cls("%s/%s" % (spec[0], fam))
     tight = np.full(qe.size, 8 * R.EPS) * (dnorm + 1.0)
